@@ -79,19 +79,13 @@ theorem st_readEnv : ∀ name args pos skip mode ts r,
   by_cases herr : envError name be.2 = true
   · simp [herr] at h
   · simp only [herr] at h ⊢
-    cases hs : (readSpacer (ts1.drop 2)).2 with
-    | nil => simp [hs] at h
-    | cons o r' =>
-      rw [hs] at h
+    cases ts1 with
+    | nil => simp at h
+    | cons t0 r0 =>
       simp only at h ⊢
-      cases hg : gkindOfBegin o.cat with
-      | none => simp [hg] at h
-      | some k =>
-        rw [hg] at h
-        simp only at h ⊢
-        obtain ⟨g, ts2, ha, h⟩ := Res.bind_eq_ok.mp h
-        rw [hA _ _ _ _ _ ha]
-        exact h
+      obtain ⟨na, ts2, ha, h⟩ := Res.bind_eq_ok.mp h
+      rw [hC _ _ _ _ _ ha]
+      exact h
 
 theorem st_readEnvBody : ∀ skip mode ts r, readEnvBody (f+1) skip false mode ts = .ok r →
     readEnvBody (f+1) skip true mode ts = .ok r := by
